@@ -44,6 +44,7 @@ pub fn generator(prop: &str) -> Option<Gen> {
         "C14" => Some(gen::gen_c14),
         "C20" => Some(gen::gen_c20),
         "C16" => Some(gen::gen_c16),
+        "C07" => Some(gen::gen_c07),
         _ => None,
     }
 }
@@ -52,6 +53,7 @@ pub fn budget(prop: &str, tier: &str) -> u64 {
     let quick = match prop {
         "C11" => 400,
         "C16" => 400,
+        "C07" => 400,
         "C14" => 3 * 6 * 155 + 200,
         _ => 150,
     };
@@ -78,7 +80,10 @@ pub fn run_scenario(world: &transport::Shared, prop: &str, lines: &[String]) -> 
     let trace = world.borrow_mut().lean.take_trace();
     let nreq = trace.iter().filter(|l| l.starts_with("REQ ")).count() as u64;
     let nops = sess.results.len() as u64;
-    let sig: String = sess.results.iter().map(|(o, r)| format!("{}=>{};", o.split(' ').take(2).collect::<Vec<_>>().join(" "), r)).collect();
+    let mut sig: String = sess.results.iter().map(|(o, r)| format!("{}=>{};", o.split(' ').take(2).collect::<Vec<_>>().join(" "), r)).collect();
+    // what went over the wire is part of a case's identity
+    let reqs: String = trace.iter().filter(|l| l.starts_with("REQ ")).map(|l| l.as_str()).collect::<Vec<_>>().join("|");
+    sig.push_str(&format!("#{:x}", fnv(&reqs)));
     let mut mm = Vec::new();
     let mut jj = Vec::new();
     for v in verdict {
